@@ -20,7 +20,8 @@
 (*     i.e. is connected to SI through the declarations.                   *)
 (***************************************************************************)
 EXTENDS Integers, Sequences, FiniteSets, TLC
-CONSTANTS Decls, Roots, Bases
+CONSTANTS Decls, Roots, Bases,
+          Classes     \* sets of named base units of one dimension (for the pairwise ratios prescribed to C04 on shipped definitions)
 VARIABLES size, pending, ev
 vars == <<size, pending, ev>>
 
@@ -33,7 +34,7 @@ Degree(S) == IF S = {} THEN 0 ELSE LET p == CHOOSE x \in S : TRUE IN Abs(p[2]) +
 Unsized(d, sz) == Mentioned(d) \ DOMAIN sz
 ExpOf(d, b) == LET S == {p \in d.t : p[1] = b} IN IF S = {} THEN 0 ELSE (CHOOSE p \in S : TRUE)[2]
 
-Init == size = [b \in Roots |-> 0] /\ pending = 1..Len(Decls) /\ ev = [op |-> "init", i |-> 0, b |-> "", res |-> 0]
+Init == size = [b \in Roots |-> 0] /\ pending = 1..Len(Decls) /\ ev = [op |-> "init", i |-> 0, b |-> "", res |-> 0, to |-> ""]
 \* one solving step per transition: the first usable declaration defines one more unit
 Usable == {i \in pending : LET d == Decls[i] IN
              /\ Cardinality(Unsized(d, size)) = 1
@@ -45,9 +46,14 @@ Define == /\ Usable # {}
                  rest == SumBag({p \in d.t : p[1] # x}, size)
                  v == IF ExpOf(d, x) = 1 THEN d.lat - rest ELSE rest - d.lat
              IN /\ size' = size @@ (x :> v) /\ pending' = pending \ {i}
-                /\ ev' = [op |-> "define", i |-> i, b |-> x, res |-> 0]
-Next == Define
+                /\ ev' = [op |-> "define", i |-> i, b |-> x, res |-> 0, to |-> ""]
 Done == Usable = {}
+\* once the sizes are solved: every ordered pair of named units of one dimension, with the ratio the definitions give
+Pair(a, b) == /\ a # b /\ a \in DOMAIN size /\ b \in DOMAIN size
+              /\ ev' = [op |-> "pair", i |-> size[a] - size[b], b |-> a, res |-> 0, to |-> b]
+              /\ UNCHANGED <<size, pending>>
+\* (the cheap guard first: pair states have no successors, and Done is evaluated once per state, not per candidate)
+Next == Define \/ (ev.op # "pair" /\ Done /\ \E cl \in Classes : \E a \in cl, b \in cl : Pair(a, b))
 
 Residual(d, sz) == SumBag(d.t, sz) - d.lat
 Tol(d) == 10 * Degree(d.t) + Cardinality(d.t) + 2
